@@ -1534,7 +1534,7 @@ def run_histories(ctx, res, histories, tag):
         return
     t1 = time.time()
     outs = coq.eval_shards(ctx.workdir, 'c10cases_%s' % tag, HEADER, shards,
-                           ['bad_model skew sha ops spw0 sops cases', 'bad_spec skew sha ops spw0 sops cases'])
+                           ['bad_model skew sha ops spw0 sops cases', 'bad_spec skew sha ops spw0 sops cases'], jobs=2)
     res['extra']['coq_eval_wall_s'] = round(res['extra'].get('coq_eval_wall_s', 0) + time.time() - t1, 2)
     for (rc, lists, err), meta in zip(outs, metas):
         if rc != 0 or len(lists) != 2:
@@ -1640,6 +1640,8 @@ def load_corpus():
                 by_now.setdefault(p['now8'], []).append({k: v for k, v in p.items() if k != 'now8'})
             for now8, ps in by_now.items():
                 items.append({'batch': {'now8': now8, 'probes': ps}})
+            if h.get('slave'):
+                items.append({'slave': h['slave']})
             out.append({'items': items, 'pool': h.get('pool', []), 'set_cmd': h.get('set_cmd')})
         for c in (d['cases'] if 'cases' in d else ([d['case']] if 'case' in d else [])):
             out.append(history_of_case(c))
